@@ -382,11 +382,25 @@ def num_active_term(path):
     return pred
 
 
+class CanonNames:
+    """A view of a body in which parameters are named by their type (`self` stays `self`): neither the name nor the
+    position of a parameter survives ordinary refactors (a method body moved to a free function), its type mostly does."""
+    def __init__(self, body):
+        self.kind = body.kind
+        self.upvar_names = body.upvar_names
+        self.local_names = dict(body.local_names)
+        for i in range(1, body.argc + 1):
+            if body.local_names.get(i) != 'self':
+                self.local_names[i] = '<%s>' % str(body.locals[i]).replace('&mut ', '').replace('&', '')
+
+
 def canon_cond(path, ev, body=None):
     """Canonical text of what a cond established: `<expr> == <0|1>` with Ne/Not folded into the truth value, Lt/Le
     turned into Gt/Ge and the operands of Eq ordered textually - so `0 == x`, `x == 0` and `!(x != 0)` coincide."""
     t = ev['taken']
     e = ev['expr']
+    if body is not None and not isinstance(body, CanonNames):
+        body = CanonNames(body)
     while e[0] == 'unop' and e[1] == 'Not' and t in (0, 1):
         e, t = e[2], 1 - t
     if e[0] == 'binop':
@@ -522,3 +536,37 @@ def pre_havoc(v):
     while v[0] == 'havoc' and len(v) > 3 and v[3] is not None:
         v = v[3]
     return v
+
+
+def direct_target_is(facts, path, upto, who):
+    """Has the path established, before event index `upto`, that Probe.direct is Some(m) with m.id() equal to the
+    parameter `who` (1-based)?  Recognises `match self.direct.as_ref() { Some(m) => m.id() == who, None => false }`
+    spelled inline (the is_some_and / is_probing spellings are handled by the callers).  True / False / None."""
+    calls = {c['id']: c for c in path.calls()}
+    direct = None
+    for c in path.calls():
+        if c['res'] == 'core::option::Option::as_ref' and c['args'][0][0] == 'ref' and \
+                field_path(c['args'][0][1])[1][-1:] == ['direct']:
+            direct = ('call', c['id'])
+    if direct is None:
+        return None
+    st = option_known(facts, path, upto, direct)
+    if st == 'None':
+        return False
+    if st != 'Some':
+        return None
+    payload = ('fieldv', direct, '0', 'Some')
+    out = None
+    for c in conds_before(path, upto):
+        e, t = norm_bool(c)
+        es = eq_sides(e)
+        if not es or t is None:
+            continue
+        sides = [es[1], es[2]]
+        is_id = lambda v: (v[0] == 'call' and v[1] in calls and calls[v[1]]['res'] == 'member::Member::id' and
+                           mentions(calls[v[1]]['args'][0], lambda y: y == payload)) or \
+                          (v[0] == 'load' and field_path(v[1])[1][-1:] == ['id'] and mentions(v, lambda y: y == payload))
+        is_who = lambda v: is_param(v, who) or v == ('load', ('deref', ('param', 0, who)), 0)
+        if (is_id(sides[0]) and is_who(sides[1])) or (is_id(sides[1]) and is_who(sides[0])):
+            out = (t == es[0])
+    return out
